@@ -15,14 +15,30 @@ Stream
              Observed after every step: cfdm.atol(), rtol(), log_level(), configuration(),
              logging.root.manager.disable, logging.getLogger().level.
 
-The driver answers with two predictions: the decorator as patched by
-fixes/C20-verbose-scope.patch (proposed, not applied) and the decorator of 1.11.2.0 as coded.
-The two are proved equal on guarded programs (C20_old_eq_new_on_guarded); the implementation is
-compared with the first, and where the two differ (the three defect classes) a failure is a
-known finding only if the whole observed trace equals the second.
+               req                  `equals` of a cfdm class found by reflection (Field, Domain, Constructs,
+                                    every construct class, Bounds, Datum, …) on operands that differ by a
+                                    known amount in their own data, their bounds, a parameter or — five
+                                    calls deep — the data / bounds of a metadata construct, with tolerance
+                                    and verbose arguments (keyword or positional): the verdict and the
+                                    decorated call are two model statements (`vd` + `real`)
+  C20.cm     objects returned by the setters / configuration() used as context managers in ANY
+             interleaving: `with` blocks inside generators suspended at a `yield` (left later by
+             resuming, by throw() or by close()), the same object entered several times
+             (model + oracle)
+  C20.fn     the private helpers `_disable_logging`, `_is_valid_log_level_int`,
+             `_reset_log_emergence_level`, `log_level._parse` called directly from any logging state
+             (model only: intermediates, a mismatch is model drift, never by itself a failing input)
+
+The driver answers C20.prog with three predictions: `decoNew` (what the property demands of
+every decorated call), the decorator after fixes/C20-verbose-scope.patch (`decoMidFine`) and the
+decorator of 1.11.2.0 (`decoOldFine`).  They are proved equal on guarded programs
+(C20_mid_eq_new_on_guarded, C20_old_eq_new_on_guarded); the implementation is compared with the
+first, and where it differs a failure is a known finding only if the whole observed trace equals
+the second or the third and the first violated clause is the one that defect describes.
 """
 import ast
 import contextlib
+import copy
 import inspect
 import io
 import json
@@ -56,25 +72,51 @@ REQUIRED = [
     "C20_old_single_call_restores_partial",
     "C20_old_verbose_scoped_partial",
     "C20_old_eq_new_on_guarded",
+    "C20_mid_invalid_verbose_no_trace",
+    "C20_mid_nested_call_restores",
+    "C20_mid_repairs_leak_and_nested",
+    "C20_mid_verbose_zero_still_reenables_logging",
+    "C20_mid_verbose_scoped_partial",
+    "C20_mid_eq_new_on_guarded",
+    "C20_nested_verbose_table",
+    "C20_helpers_refine",
+    "C20_verbose_in_force",
+    "C20_lift_must_be_unconditional",
+    "C20_passed_tolerances_reach_every_comparison",
+    "C20_cm_exit_restores_what_the_object_captured",
+    "C20_cm_exit_restores_configuration",
+    "C20_blocks_restore_everything",
 ]
 BUDGET = {"quick": 10000, "thorough": 300000}
 RULE = (
-    "well-nested programs (depth <= 3 quick, <= 6 thorough) of {setter, configuration, with-block of a "
+    "C20.prog: well-nested programs (depth <= 3 quick, <= 6 thorough) of {setter, configuration, with-block of a "
     "setter / of configuration (with and without argument), decorated call (synthetic function or method, "
     "or one of the decorated cfdm functions found by reflection, returning or raising), try, raise, "
-    "equals of Data / a coordinate / a Field with tolerance arguments (explicit zero included, spelled as int, float, "
-    "numpy scalar or cfdm.Constant; global loose vs passed tight and vice versa on operands differing by a known amount)} x verbose in {None, -1..3, level names in any case, True, False, "
-    "invalid ints, invalid names} x initial level in the 5 values x 9 tolerance values (8 powers of two and zero); observed after every "
-    "step at every depth. non-trivial = has a call with verbose not None, a with-block or a raise; "
-    "distinct = distinct program text"
+    "equals of a minimal Data / coordinate / Field, and equals of every cfdm class with an equals method found by "
+    "reflection on the example fields (difference placed in its data, its bounds, a parameter, or the data / bounds of "
+    "a metadata construct of a Field / Domain / Constructs) with tolerance arguments (explicit zero included; spelled as "
+    "int, float, numpy float64 / int64 / float32 scalar, 0-d numpy array or cfdm.Constant; keyword or positional; global "
+    "loose vs passed tight and vice versa on operands differing by a known amount) and a verbose argument} x verbose in "
+    "{None, -1..3, level names in any case, True, False, invalid ints, invalid names} x initial level in the 5 values x 9 "
+    "tolerance values (8 powers of two and zero); observed after every step at every depth.  Families: general programs; "
+    "the table (global level) x (outermost verbose) x (nested verbose) with synthetic and real nested calls; real cfdm call "
+    "chains (Field/Domain/Constructs.equals, read, write) under every global level; tolerance programs.  Programs predicted "
+    "to end in a defect class the decorator under test was measured to have are kept about one time in eight.  "
+    "C20.cm: flat histories of {object = setter(arg) / configuration(...), enter a with-block on an object (itself, a copy, a "
+    "deepcopy; any object any number of times) inside a generator suspended at a yield, leave any open block (resume, throw, "
+    "close) in any order, plain setter calls, a hand-made Constant}.  C20.fn: the private logging helpers from any "
+    "(LOG_LEVEL, root level, disable level).  non-trivial = has a call with verbose not None, a with-block, a raise, a "
+    "reflected equals, a block exit or a helper call; distinct = distinct program / history text"
 )
 ASSUMPTIONS = [
     "tolerances are 8 exact powers of two and exact zero (floats are abstract identifiers in the model); arguments that make float() raise TypeError are not generated (only ValueError is rolled back by _configuration)",
     "the root logger level is compared while logging is enabled (manager.disable == 0); under logging.disable(CRITICAL) it filters nothing and cfdm re-derives it whenever logging is re-enabled, so it is printed as '-'",
     "a with-block of log_level/configuration placed *inside* a call with a verbose re-derives the logging state from the restored global level on exit (by design of Constant.__exit__); there the oracle demands the three settings only, the model comparison covers the rest",
-    "bodies of the real cfdm functions are opaque: they are observed after they return/raise only",
-    "the private nesting counter of the unpatched decorator is reset between programs (best effort, so that cases stay independent) and is never compared",
+    "bodies of the real cfdm functions are opaque: they are observed after they return/raise only; the net verbosity of the decorated calls such a function makes itself is measured through public observables (logging state right after it returns inside an enclosing verbose=None call) and only feeds the models of the decorator as coded; an equals whose nested calls depend on the verdict for some verbose is driven with that verbose through the fixed `real` recipes only",
+    "the private nesting counter of the decorator is reset between programs (best effort, so that cases stay independent) and is never compared",
     "verbose values of other types (floats etc.) are outside the property's quantifier and not generated",
+    "C20.cm: a block is left at most once (a finished generator cannot run __exit__ again); copies of a Configuration are not generated (Configuration.copy()/deepcopy recurse for ever in 1.11.2.0 - outside the property's text, reported separately); garbage collection of a suspended generator (which would run __exit__ at an unpredictable time) is excluded by keeping references",
+    "C20.fn compares private helpers with the step-by-step model (names passed to getattr(logging, .) restricted to those both sides define); a mismatch there is model drift and can by itself only yield no-failing-input-found",
 ]
 
 LEVELS = ["DISABLE", "WARNING", "INFO", "DETAIL", "DEBUG"]
@@ -359,8 +401,189 @@ def env():
     _reset(e)
     d1 = {}
     e.eq_cache = d1
+    e.eq_variants = _build_eq_variants(e, pool)
+    e.chain_names = [qn for qn in e.names if e.recipes.get(qn) and qn.rsplit(":", 1)[-1] in (
+        "Field.equals", "Domain.equals", "Constructs.equals", "NetCDFRead.read", "NetCDFWrite.write",
+        "AuxiliaryCoordinate.equals", "DimensionCoordinate.equals", "CoordinateReference.equals")]
+    e.flags = _behaviour_flags(e)
+    _reset(e)
     _env = e
     return e
+
+
+DELTA_M0 = 5          # calibration of the reflected `equals` variants: operands differing by 7*2^-5
+
+
+def _set_numbers(C, obj, value):
+    """Replace the data of `obj` by an array of the same shape filled with `value`."""
+    import numpy as np
+
+    d = obj.data
+    new = C.Data(np.full(d.shape, value, dtype=float), units=d.get_units(None), calendar=d.get_calendar(None))
+    if isinstance(obj, C.Field):
+        obj.set_data(new, axes=obj.get_data_axes(), copy=False)
+    else:
+        obj.set_data(new, copy=False)
+
+
+def _eq_makers(C, o):
+    """Ways of deriving from the cfdm object `o` two objects that differ by `delta` everywhere in ONE
+    numeric component (and are otherwise equal): [(where, make(delta) -> (x, y))]."""
+    import numpy as np
+
+    out = []
+    if isinstance(o, C.Data):
+        out.append(("data", lambda dl, o=o: (C.Data(np.full(o.shape, 2.0 + dl)), C.Data(np.full(o.shape, 2.0)))))
+        return out
+
+    def two(mod):
+        def make(dl):
+            x, y = o.copy(), o.copy()
+            mod(x, 2.0 + dl)
+            mod(y, 2.0)
+            return x, y
+        return make
+
+    try:
+        if hasattr(o, "has_data") and o.has_data():
+            out.append(("data", two(lambda t, v: _set_numbers(C, t, v))))
+    except Exception:
+        pass
+    try:
+        if hasattr(o, "has_bounds") and o.has_bounds():
+            out.append(("bounds", two(lambda t, v: _set_numbers(C, t.bounds, v))))
+    except Exception:
+        pass
+    try:
+        cs = o if isinstance(o, C.Constructs) else getattr(o, "constructs", None)
+        if isinstance(cs, C.Constructs):
+            def sub(t, key):
+                return (t if isinstance(t, C.Constructs) else t.constructs)[key]
+
+            done = set()
+            for key, c in sorted(cs.filter_by_data(todict=True).items()):
+                tn = type(c).__name__
+                if ("c", tn) not in done:
+                    done.add(("c", tn))
+                    out.append(("construct-data:" + tn, two(lambda t, v, key=key: _set_numbers(C, sub(t, key), v))))
+                if getattr(c, "has_bounds", lambda: False)() and ("b", tn) not in done:
+                    done.add(("b", tn))
+                    out.append(("construct-bounds:" + tn, two(lambda t, v, key=key: _set_numbers(C, sub(t, key).bounds, v))))
+    except Exception:
+        pass
+    try:
+        if hasattr(o, "parameters") and hasattr(o, "set_parameter"):
+            for k, v in sorted(o.parameters().items()):
+                if isinstance(v, (int, float, np.floating, np.integer)) and not isinstance(v, bool):
+                    out.append(("parameter", two(lambda t, val, k=k: t.set_parameter(k, val))))
+                    break
+    except Exception:
+        pass
+    try:
+        cc = getattr(o, "coordinate_conversion", None)
+        if cc is not None and not callable(cc):
+            for k, v in sorted(cc.parameters().items()):
+                if isinstance(v, (int, float, np.floating, np.integer)) and not isinstance(v, bool):
+                    out.append(("conversion-parameter", two(lambda t, val, k=k: t.coordinate_conversion.set_parameter(k, val))))
+                    break
+    except Exception:
+        pass
+    return out
+
+
+def _build_eq_variants(e, pool):
+    """Every cfdm class with an `equals` that takes tolerances, found by reflection on the objects of
+    the example fields, each with the places where a numeric difference can sit.  A variant is kept
+    if the method sees that component at all — with everything at its default an operand equals its
+    copy and the two operands (differing by 7*2^-5) are unequal.  Deliberately NOT calibrated with
+    tolerance arguments: a method that drops or mangles them must stay in the list to be caught.
+    Positional calls are made only where reflection shows the order (self, other, rtol, atol)."""
+    C = e.C
+    dl = 7 * 2.0 ** -DELTA_M0
+    variants = {}
+    for o in pool:
+        tn = type(o).__name__
+        if not callable(getattr(o, "equals", None)):
+            continue
+        for where, make in _eq_makers(C, o):
+            if (tn, where) in variants:
+                continue
+            try:
+                with contextlib.redirect_stdout(io.StringIO()):
+                    x, y = make(dl)
+                    ok = x.equals(y) is False and x.equals(x.copy()) is True
+            except Exception:
+                ok = False
+            _reset(e)
+            if not ok:
+                continue
+            # the decorated calls the method makes itself must not depend on the verdict (the protocol
+            # line carries ONE nested verbosity): e.g. Field.equals returns before comparing the metadata
+            # constructs when the field's own data differ — that placement is left to the minimal `eq` kinds.
+            # Checked here for verbose=None, and per verbose value in `probe_req`.
+            try:
+                if _probe_paths(e, ("variant-probe", tn, where), x, y, "N", tn) is None:
+                    continue
+            except fw.HarnessError:
+                continue
+            fn = getattr(type(o), "equals", None)
+            qn = next((k for k, f in e.funcs.items() if f is fn), None)
+            variants[(tn, where)] = dict(cls=tn, where=where, make=make, qn=qn, cache={}, positional=_positional_ok(type(o)))
+    return [variants[k] for k in sorted(variants)]
+
+
+def _positional_ok(cls):
+    """Does the `equals` of this class take (self, other, rtol, atol, …) in that order?  Read from the
+    first function along the MRO whose signature is visible (the docstring-rewriting metaclass gives
+    subclasses copies that show `(*args, **kwargs)`)."""
+    for k in cls.__mro__:
+        f = k.__dict__.get("equals")
+        while f is not None and hasattr(f, "__wrapped__"):
+            f = f.__wrapped__
+        if f is None:
+            continue
+        try:
+            names = list(inspect.signature(f).parameters)
+        except (TypeError, ValueError):
+            continue
+        if "rtol" in names:
+            return names[:4] == ["self", "other", "rtol", "atol"]
+    return False
+
+
+def _probe_paths(e, key0, x, y, vtok, what):
+    """The nested verbosity left behind by x.equals(., verbose=vtok) on the path that finds the operands
+    unequal and on the path that finds them equal; None if the two differ (then the single-`inner`
+    protocol cannot describe the call and the generator avoids that verbose for this variant)."""
+    x2 = x.copy()
+    a = _probe(e, (key0, "unequal"), lambda v: x.equals(y, verbose=v), vtok, what)
+    b = _probe(e, (key0, "equal"), lambda v: x.equals(x2, verbose=v), vtok, what)
+    return a if a == b else None
+
+
+def _behaviour_flags(e):
+    """Which of the three known defect classes does the decorator under test show?  Used ONLY to steer
+    the generator (so that cases ending in a known finding stay a small fraction); never for a verdict."""
+    fl = dict(leak=False, nested=False, zero=False)
+    try:
+        _reset(e)
+        try:
+            e.syn_func(lambda: 1, verbose=7)
+        except ValueError:
+            pass
+        e.syn_func(lambda: 1, verbose=3)
+        fl["leak"] = _logging.getLogger().level != _logging.WARNING
+        _reset(e)
+        e.syn_func(lambda: e.syn_func(lambda: 1, verbose=3), verbose=None)
+        fl["nested"] = _logging.getLogger().level != _logging.WARNING
+        _reset(e)
+        e.C.log_level("DISABLE")
+        e.syn_func(lambda: 1, verbose=0)
+        fl["zero"] = _logging.root.manager.disable == 0
+    except Exception:
+        pass
+    _reset(e)
+    return fl
 
 
 def _reset(e):
@@ -379,6 +602,30 @@ _probe_cache = {}
 
 
 def probe_inner(e, qn, idx, vtok):
+    rs = e.recipes.get(qn) or []
+    if not rs:
+        return "N"
+    return _probe(e, (qn, idx % len(rs)), rs[idx % len(rs)], vtok, qn)
+
+
+def probe_req(e, vidx, vtok):
+    """The same for the `equals` of reflected variant number `vidx` (operands at the calibration distance)."""
+    var = e.eq_variants[vidx]
+    x, y = _operands(e, vidx, DELTA_M0)
+    return _probe_paths(e, ("req", vidx), x, y, vtok, f"{var['cls']}.equals[{var['where']}]")
+
+
+def _operands(e, vidx, m):
+    var = e.eq_variants[vidx]
+    if m not in var["cache"]:
+        if len(var["cache"]) > 64:
+            var["cache"].clear()
+        with contextlib.redirect_stdout(io.StringIO()):
+            var["cache"][m] = var["make"](7 * 2.0 ** -m)
+    return var["cache"][m]
+
+
+def _probe(e, key0, recipe, vtok, what):
     """Which verbosity does this cfdm function hard-code for the decorated calls it makes itself
     (e.g. Constructs.equals compares candidate pairs with verbose=0)?  Measured through public
     observables only: the function is called inside a synthetic decorated call with verbose=None
@@ -387,13 +634,12 @@ def probe_inner(e, qn, idx, vtok):
     C20_verbose_scoped: whatever the inner verbosity, nothing is left behind) and serves only to
     let the model of the *unpatched* decorator recognise the known defect exactly."""
     res = resolve_verbose(vtok)
-    rs = e.recipes.get(qn) or []
-    if res[0] == "invalid" or not rs:
+    if res[0] == "invalid":
         return "N"
-    key = (qn, idx % len(rs), res)
+    # the function body sees the raw value (`if verbose == -1:` is false for "debug"): key on its kind too
+    key = (key0, res, vtok if vtok[0] == "b" else vtok[0])
     if key in _probe_cache:
         return _probe_cache[key]
-    recipe = rs[idx % len(rs)]
     v = verbose_value(vtok)
     seen = []
     for init in ("WARNING", "DEBUG"):
@@ -410,7 +656,7 @@ def probe_inner(e, qn, idx, vtok):
             e.syn_func(body, verbose=None)
         except Exception as ex:
             _reset(e)
-            raise fw.HarnessError(f"probe: {qn} raised {ex!r} when called normally")
+            raise fw.HarnessError(f"probe: {what} raised {ex!r} when called normally")
     _reset(e)
     out = "N"
     if len(seen) == 2:
@@ -496,7 +742,14 @@ def enc(prog, names=None):
         elif k == "raise":
             out.append(f"raise:{st[1]}")
         elif k == "eq":
-            out.append(f"eq:{st[1]}:{st[2]}:{st[3]}:{st[4]}{st[5]}")
+            out.append(f"eq:{st[1]}:{st[2]}:{st[3]}:{st[4]}{st[5]}{st[6]}")
+        elif k == "req":
+            # ["req", variant, verbose, rtol, atol, m, spelling, k|p, inner]: the verdict, then the call
+            qn = env().eq_variants[st[1]]["qn"]
+            idx = names.index(qn) if names and qn in names else 0
+            if resolve_verbose(st[2])[0] != "invalid":
+                out.append(f"vd:{st[3]}:{st[4]}:{st[5]}:k{st[1]}s{st[6]}{st[7]}")
+            out.append(f"real:{idx}:{st[2]}:o:{st[8]}")
         else:
             raise fw.HarnessError("unknown statement " + repr(st))
     return ";".join(out)
@@ -601,12 +854,28 @@ def gen_stmt(rng, depth, maxdepth, names):
     return ["try", body]
 
 
-def gen_eq(rng, leaf):
+def gen_eq(rng, leaf, deep=None):
     """An equality test with tolerance arguments.  Half of the time placed inside a
     configuration block chosen so that global and passed tolerances disagree about the operands
-    (global loose / passed tight — explicit zero included — and the other way round)."""
+    (global loose / passed tight — explicit zero included — and the other way round).
+    Either a minimal Data / coordinate / Field (`eq`), or the `equals` of a cfdm class found by
+    reflection with the difference placed in its data, bounds, a parameter or a metadata construct
+    (`req`, with a verbose argument)."""
     kind = rng.choice("dcf")
-    spell = rng.randrange(4)
+    spell = rng.randrange(len(SPELLINGS))
+    mode = "p" if rng.random() < 0.3 else "k"
+    nvar = len(env().eq_variants)
+    if deep is None:
+        deep = rng.random() < 0.45
+    vidx = rng.randrange(nvar) if (deep and nvar) else None
+
+    def finish(st):
+        st = st + [mode]
+        if vidx is None:
+            return st
+        # ["req", variant, verbose, rtol, atol, m, spelling, mode, inner]
+        v = "N" if rng.random() < 0.55 else gen_verbose(rng)
+        return ["req", vidx, v, st[1], st[2], st[3], st[5], mode]
     tight = [ZERO, ZERO, 0, 1, 2]
     loose = [6, 7, 7]
 
@@ -617,7 +886,7 @@ def gen_eq(rng, leaf):
     if leaf or r < 0.4:
         def t():
             return "_" if rng.random() < 0.35 else str(rng.choice(list(range(len(TOLS))) + [ZERO, ZERO]))
-        return ["eq", t(), t(), rng.randint(2, 45), kind, spell]
+        return finish(["eq", t(), t(), rng.randint(2, 45), kind, spell])
     # operands differ by 7*2^-m with 2^-4 < |x-y| < 0.5: loose (2^-4.. 2^-1) vs tight (<= 2^-30)
     m = rng.randint(3, 6)
     if r < 0.7:
@@ -628,7 +897,7 @@ def gen_eq(rng, leaf):
     st = ["eq", passed(arg), passed(arg), m, kind, spell]
     if st[1] == "_" and st[2] == "_":
         st[rng.choice([1, 2])] = str(rng.choice(arg))
-    return ["wcfg", f"t{ga}", f"t{gr}", "_", [st]]
+    return ["wcfg", f"t{ga}", f"t{gr}", "_", [finish(st)]]
 
 
 def gen_body(rng, depth, maxdepth, names):
@@ -652,25 +921,258 @@ def gen_prog(rng, maxdepth, names):
     return prog
 
 
+# ---- steering: keep the cases that end in a known finding a small (still present) fraction
+def _prone(prog, flags):
+    """Rough prediction (never used for a verdict): does this program run into one of the defect
+    classes that the decorator under test was measured to have (`_behaviour_flags`)?"""
+    state = dict(g="WARNING", invalid=False, hit=False)
+
+    def calls(v, inner, depth, outer):
+        r = resolve_verbose(v)
+        if r[0] == "invalid":
+            if flags["leak"]:
+                state["invalid"] = True
+            return None, False
+        if state["invalid"] and r[0] == "level":
+            state["hit"] = True
+        lv = r[1] if r[0] == "level" else None
+        if depth == 0:
+            if lv == "DISABLE" and state["g"] in ("DISABLE", None) and flags["zero"]:
+                state["hit"] = True
+            top = lv
+        else:
+            top = outer
+            if lv is not None and lv != outer and flags["nested"]:
+                state["hit"] = True
+        if inner not in (None, "N") and flags["nested"]:
+            il = resolve_verbose(inner)
+            if il[0] == "level" and il[1] != top:
+                state["hit"] = True
+        return top, True
+
+    def go(stmts, depth, outer):
+        for st in stmts:
+            k = st[0]
+            if k == "set" and st[1] == "l" and st[2] != "_":
+                state["g"] = lvl_valid(st[2]) or state["g"]
+            elif k == "cfg" and st[3] != "_":
+                state["g"] = None
+            elif k == "with":
+                g0 = state["g"]
+                if st[1] == "l" and st[2] != "_":
+                    state["g"] = lvl_valid(st[2]) or g0
+                go(st[3], depth, outer)
+                if st[1] == "l":
+                    state["g"] = g0
+            elif k == "wcfg":
+                g0 = state["g"]
+                if st[3] != "_":
+                    state["g"] = lvl_valid(st[3]) or g0
+                go(st[4], depth, outer)
+                state["g"] = g0
+            elif k == "try":
+                go(st[1], depth, outer)
+            elif k == "call":
+                top, ok = calls(st[2], None, depth, outer)
+                if ok:
+                    go(st[3], depth + 1, top)
+            elif k == "real":
+                calls(st[2], st[5] if len(st) > 5 else None, depth, outer)
+            elif k == "req":
+                calls(st[2], st[8] if len(st) > 8 else None, depth, outer)
+            elif k == "eq" and state["invalid"]:
+                pass
+
+    go(prog, 0, None)
+    return state["hit"]
+
+
+V_TABLE = ["N", "i-1", "i0", "i1", "i2", "i3", "sDISABLE", "sdisable", "sDeBuG", "sWarning", "sinfo", "sDETAIL",
+           "bT", "bF", "i7", "i-2", "sloud"]
+
+
+def gen_table(rng, names):
+    """One cell of the table (global level) x (outermost verbose) x (nested verbose), the nested call
+    being a synthetic one, the one a real cfdm function makes itself, or a real cfdm function called
+    inside a synthetic one."""
+    e = env()
+    g = rng.choice(LEVELS)
+    vo, vi = rng.choice(V_TABLE), rng.choice(V_TABLE)
+    shape = rng.choice("ABCDE")
+    chain = e.chain_names
+    if shape == "A" or not chain:
+        body = [["call", rng.choice("fm"), vo, [["call", rng.choice("fm"), vi, []]]]]
+    elif shape == "B":
+        body = [["real", rng.choice(chain), vo, "o", rng.randrange(8)]]
+    elif shape == "C":
+        body = [["call", rng.choice("fm"), vo, [["real", rng.choice(chain), vi, "o", rng.randrange(8)]]]]
+    elif shape == "D":
+        body = [["call", rng.choice("fm"), vo, [["call", rng.choice("fm"), vi, [["raise", rng.choice("VTK")]]]]]]
+    else:
+        body = [["call", rng.choice("fm"), vo, [["try", [["call", rng.choice("fm"), vi, []]]],
+                                                 ["call", rng.choice("fm"), rng.choice(V_TABLE), []]]]]
+    return [["set", "l", "n" + _name_form(rng, g)], ["try", body]]
+
+
+def gen_chain(rng, names):
+    """Real nested cfdm call chains (Field.equals -> Constructs.equals -> construct.equals -> Data.equals,
+    Domain.equals, read, write) with a verbose argument under every global level."""
+    e = env()
+    prog = [["set", "l", "n" + rng.choice(LEVELS)]]
+    deep = [i for i, v in enumerate(e.eq_variants) if v["cls"] in ("Field", "Domain", "Constructs")]
+    for _ in range(rng.randint(1, 3)):
+        v = rng.choice(V_TABLE)
+        if deep and rng.random() < 0.5:
+            st = ["req", rng.choice(deep), v, rng.choice(["_", "8", "0", "6"]), rng.choice(["_", "8", "1", "7"]),
+                  rng.randint(3, 30), rng.randrange(len(SPELLINGS)), rng.choice("kkp")]
+        elif e.chain_names:
+            st = ["real", rng.choice(e.chain_names), v, "o", rng.randrange(8)]
+        else:
+            st = ["call", "f", v, []]
+        if rng.random() < 0.3:
+            st = ["call", rng.choice("fm"), rng.choice(V_TABLE), [st]]
+        prog.append(["try", [st]])
+    return prog
+
+
+def gen_eqx(rng, names):
+    """Passed zero / tiny tolerances with loosened globals (and the converse) on every class with an
+    `equals` found by reflection, keyword and positional."""
+    prog = []
+    if rng.random() < 0.5:
+        prog.append(["set", "l", "n" + rng.choice(LEVELS)])
+    for _ in range(rng.randint(1, 3)):
+        st = gen_eq(rng, False, deep=rng.random() < 0.8)
+        if rng.random() < 0.25:
+            st = ["call", rng.choice("fm"), rng.choice(["N", "N", "i3", "i0"]), [st]]
+        prog.append(["try", [st]])
+    return prog
+
+
+# ---- the object-level context-manager stream
+def gen_cm(rng):
+    evs = []
+    nobj = 0
+    blocks = []          # open block numbers
+    nblocks = 0
+    for _ in range(rng.randint(4, 14)):
+        r = rng.random()
+        if r < 0.25 or nobj == 0:
+            if rng.random() < 0.3:
+                evs.append(["mkcfg", gen_tol(rng), gen_tol(rng), gen_lvl(rng)])
+                ok = all(t != "bad" for t in evs[-1][1:3]) and (evs[-1][3] == "_" or lvl_valid(evs[-1][3]) is not None)
+            else:
+                key = rng.choice("arl")
+                evs.append(["mk", key, gen_lvl(rng) if key == "l" else gen_tol(rng)])
+                tok = evs[-1][2]
+                ok = tok == "_" or (lvl_valid(tok) is not None if key == "l" else tok != "bad")
+            if ok:
+                nobj += 1
+        elif r < 0.29:
+            evs.append(["bare"])
+        elif r < 0.55:
+            evs.append(["enter", rng.randrange(nobj), rng.choice("ooocd")])      # the same object may be entered again
+            blocks.append(nblocks)
+            nblocks += 1
+        elif r < 0.85 and blocks:
+            j = blocks.pop(rng.randrange(len(blocks)))       # any open block: not a stack
+            evs.append(["exit", j, rng.choice("ntc")])
+        else:
+            key = rng.choice("arl")
+            evs.append(["set", key, gen_lvl(rng) if key == "l" else gen_tol(rng)])
+    rng.shuffle(blocks)
+    for j in blocks:
+        if rng.random() < 0.8:
+            evs.append(["exit", j, rng.choice("ntc")])
+    return evs
+
+
+# ---- the private helpers
+FN_NAMES_OK = ["DISABLE", "WARNING", "INFO", "DETAIL", "DEBUG"]
+
+
+def gen_fn(rng):
+    f = rng.choice(["dl", "valid", "reset", "reset", "parse"])
+    if f == "dl":
+        arg = rng.choice(["_", "e", "NOTSET", "CRITICAL", "WARNING", "INFO", "DETAIL", "DEBUG", "nonsense"])
+    elif f == "valid":
+        arg = str(rng.choice([-1, 0, 1, 2, 3, 4, -2, 7, 30]))
+    elif f == "reset":
+        form = rng.choice("cis")
+        if form == "i":
+            arg = "i:" + str(rng.choice([-1, 0, 1, 2, 3, 3, 4, -2, 15]))
+        else:
+            arg = form + ":" + rng.choice(FN_NAMES_OK + (["NOTSET", "CRITICAL", "nonsense"] if form == "s" else []))
+    else:
+        arg = gen_lvl(rng, allow_none=False)
+    return dict(f=f, arg=arg, lvl=rng.choice(LEVELS), root=rng.choice([0, 10, 15, 20, 30, 50]),
+                dis=rng.choice([0, 0, 50, 15, 30]))
+
+
 def gen(rng, tier, n):
-    names = env().names
+    e = env()
+    names = e.names
     maxdepth = 3 if tier == "quick" else 6
+    fams = ["prog", "table", "chain", "eqx", "cm", "fn"]
+    weights = [50, 10, 8, 12, 14, 6]
     for _ in range(n):
-        d = rng.randint(1, maxdepth)
-        yield mk(dict(prog=gen_prog(rng, d, names)))
+        fam = rng.choices(fams, weights)[0]
+        if fam == "cm":
+            yield mk(dict(cm=gen_cm(rng)))
+            continue
+        if fam == "fn":
+            yield mk(dict(fn=gen_fn(rng)))
+            continue
+        for attempt in range(6):
+            if fam == "prog":
+                prog = gen_prog(rng, rng.randint(1, maxdepth), names)
+            elif fam == "table":
+                prog = gen_table(rng, names)
+            elif fam == "chain":
+                prog = gen_chain(rng, names)
+            else:
+                prog = gen_eqx(rng, names)
+            case = mk(dict(prog=prog, family=fam))
+            # a program predicted to end in a known finding is kept about one time in eight
+            if not _prone(case.payload["prog"], e.flags) or rng.random() < 0.12:
+                break
+        yield case
 
 
 def mk(p):
     p = dict(p)
+    if "cm" in p:
+        return mk_cm(p)
+    if "fn" in p:
+        return mk_fn(p)
     prog = p["prog"]
     names = env().names
     for st in walk(prog):
         if st[0] == "eq":
-            # [eq, rtol, atol, m, kind (d Data / c coordinate / f Field), spelling of the numbers]
+            # [eq, rtol, atol, m, kind (d Data / c coordinate / f Field), spelling of the numbers, k|p]
             if len(st) < 5:
                 st.append("d")
             if len(st) < 6:
                 st.append(1)
+            if len(st) < 7:
+                st.append("k")
+        if st[0] == "req":
+            if isinstance(st[1], str):
+                # "Class|where" (corpus entries): robust against a changed order of discovery
+                cls_, _, where_ = st[1].partition("|")
+                st[1] = next((i for i, v in enumerate(env().eq_variants) if v["cls"] == cls_ and v["where"] == where_), 0)
+            if st[1] >= len(env().eq_variants):
+                raise fw.HarnessError(f"no reflected equals variant number {st[1]}")
+            if st[7] == "p" and not env().eq_variants[st[1]]["positional"]:
+                st[7] = "k"
+            if len(st) < 9:
+                inner = probe_req(env(), st[1], st[2])
+                if inner is None:
+                    # which decorated calls this `equals` makes with this verbose depends on the verdict:
+                    # such chains are driven through the `real` recipes; here fall back to verbose=None
+                    st[2] = "N"
+                    inner = probe_req(env(), st[1], "N")
+                st.append(inner)
         if st[0] == "real":
             # a function for which no normal call was found can only be called so that it raises
             if st[3] == "o" and not env().recipes.get(st[1]):
@@ -705,15 +1207,91 @@ def mk(p):
             if str(ZERO) in (st[1], st[2]):
                 tags.add("eq:explicit-zero")
             if st[1] != "_" or st[2] != "_":
-                tags.add("eq:passed-" + ["int-or-float", "float", "numpy", "Constant"][st[5]])
+                tags.add("eq:passed-" + SPELLINGS[st[5] % len(SPELLINGS)])
+                tags.add("eq:positional" if st[6] == "p" else "eq:keyword")
+        elif st[0] == "req":
+            var = env().eq_variants[st[1]]
+            nontrivial = True
+            tags.add("req")
+            tags.add("req:" + var["cls"])
+            tags.add("req:in-" + var["where"].split(":")[0])
+            r = resolve_verbose(st[2])
+            tags.add("v:" + ("none" if st[2] == "N" else "invalid" if r[0] == "invalid" else {"i": "int", "s": "name", "b": "bool"}[st[2][0]]))
+            tags.add("call:real")
+            if st[8] != "N":
+                tags.add("req:makes-nested-call-" + st[8])
+            if str(ZERO) in (st[3], st[4]):
+                tags.add("eq:explicit-zero")
+            if st[3] != "_" or st[4] != "_":
+                tags.add("eq:passed-" + SPELLINGS[st[6] % len(SPELLINGS)])
+                tags.add("eq:positional" if st[7] == "p" else "eq:keyword")
         else:
             tags.add(st[0])
     tags.add(f"depth:{depth_of(prog)}")
+    if p.get("family"):
+        tags.add("family:" + p["family"])
     return Case("C20.prog", p, line, key=text, nontrivial=nontrivial, tags=sorted(tags))
+
+
+def enc_cm(evs):
+    out = []
+    for ev in evs:
+        if ev[0] in ("mk", "set"):
+            out.append(f"{ev[0]}:{ev[1]}:{ev[2]}")
+        elif ev[0] == "mkcfg":
+            out.append(f"mkcfg:{ev[1]}:{ev[2]}:{ev[3]}")
+        elif ev[0] == "enter":
+            out.append(f"enter:{ev[1]}")       # entered on the object itself, a copy() or a deepcopy: harness's business
+        elif ev[0] == "bare":
+            out.append("bare")
+        elif ev[0] == "exit":
+            out.append(f"exit:{ev[1]}")        # how the block is left is the harness's business
+        else:
+            raise fw.HarnessError("unknown event " + repr(ev))
+    return ";".join(out)
+
+
+def mk_cm(p):
+    evs = p["cm"]
+    text = enc_cm(evs)
+    tags = {"cm:" + ev[0] for ev in evs}
+    order = [ev[1] for ev in evs if ev[0] == "exit"]
+    entered = [ev[1] for ev in evs if ev[0] == "enter"]
+    if len(set(entered)) < len(entered):
+        tags.add("cm:same-object-entered-twice")
+    if any(ev[0] == "enter" and len(ev) > 2 and ev[2] != "o" for ev in evs):
+        tags.add("cm:entered-on-a-copy")
+    # not a stack: some block is left while a later-entered one is still open
+    open_, lifo = [], True
+    nb = 0
+    for ev in evs:
+        if ev[0] == "enter":
+            open_.append(nb)
+            nb += 1
+        elif ev[0] == "exit" and ev[1] in open_:
+            if open_[-1] != ev[1]:
+                lifo = False
+            open_.remove(ev[1])
+            tags.add("cm:left-by-" + {"n": "resuming", "t": "throw", "c": "close"}[ev[2]])
+    tags.add("cm:nested" if lifo else "cm:interleaved")
+    if open_:
+        tags.add("cm:block-left-open")
+    return Case("C20.cm", p, "C20.cm ev=" + text, key="cm|" + text + "|" + "".join(ev[2] for ev in evs if ev[0] == "exit"),
+                nontrivial=bool(order), tags=sorted(tags))
+
+
+def mk_fn(p):
+    f = p["fn"]
+    line = f"C20.fn f={f['f']} arg={f['arg']} lvl={f['lvl']} root={f['root']} dis={f['dis']}"
+    return Case("C20.fn", p, line, key=line, nontrivial=True, tags=["fn:" + f["f"]])
 
 
 def from_payload(stream, payload):
     return mk(payload)
+
+
+def _is_prog(c):
+    return "prog" in c.payload
 
 
 # ------------------------------------------------------------------ implementation
@@ -752,25 +1330,56 @@ def _spelled(C, value, spell):
         return float(value)
     if spell == 2:
         return np.float64(value)
-    return C.Constant(value)
+    if spell == 3:
+        return C.Constant(value)
+    if spell == 4:
+        return np.int64(0) if value == 0 else np.float32(value)      # powers of two: exact in float32
+    return np.array(value)                                           # a 0-d array: float() works, bool() is False for 0
+
+
+SPELLINGS = ["int-or-float", "float", "numpy-float64", "Constant", "numpy-int64-or-float32", "numpy-0d-array"]
+
+
+def _tol_call_args(C, st_r, st_a, spell, mode):
+    """(positional tuple, keyword dict) for the tolerance arguments of an `equals` call."""
+    r = None if st_r == "_" else _spelled(C, TOLS[int(st_r)], spell % len(SPELLINGS))
+    a = None if st_a == "_" else _spelled(C, TOLS[int(st_a)], (spell + 1) % len(SPELLINGS))
+    if mode == "p":
+        if a is not None:
+            return (r, a), {}          # an omitted rtol is passed as an explicit None
+        return ((r,), {}) if r is not None else ((), {})
+    kw = {}
+    if r is not None:
+        kw["rtol"] = r
+    if a is not None:
+        kw["atol"] = a
+    return (), kw
+
+
+def _observe(C, tag):
+    a = C.atol().value
+    r = C.rtol().value
+    lv = C.log_level().value
+    cfg = dict(C.configuration())
+    dis = _logging.root.manager.disable
+    root = _logging.getLogger().level
+    s = f"{tag}|a={_show(a)},r={_show(r)},l={lv},root={root if dis == 0 else '-'},dis={dis}"
+    if cfg != {"atol": a, "rtol": r, "log_level": lv}:
+        s += ",cfg!=getters"
+    return s
 
 
 def impl(c):
+    if "cm" in c.payload:
+        return impl_cm(c)
+    if "fn" in c.payload:
+        return impl_fn(c)
     e = env()
     C = e.C
     events = []
 
     def obs(tag):
-        a = C.atol().value
-        r = C.rtol().value
-        lv = C.log_level().value
-        cfg = dict(C.configuration())
-        dis = _logging.root.manager.disable
-        root = _logging.getLogger().level
-        s = f"{tag}|a={_show(a)},r={_show(r)},l={lv},root={root if dis == 0 else '-'},dis={dis}"
-        if cfg != {"atol": a, "rtol": r, "log_level": lv}:
-            s += ",cfg!=getters"
-        events.append(s)
+        events.append(_observe(C, tag))
 
     def setter(key):
         return {"a": C.atol, "r": C.rtol, "l": C.log_level}[key]
@@ -884,13 +1493,23 @@ def impl(c):
             if key not in e.eq_cache:
                 e.eq_cache[key] = (_operand(C, kind, 2.0 + 7 * 2.0 ** -m), _operand(C, kind, 2.0))
             x, y = e.eq_cache[key]
-            kw = {}
-            if st[1] != "_":
-                kw["rtol"] = _spelled(C, TOLS[int(st[1])], spell)
-            if st[2] != "_":
-                kw["atol"] = _spelled(C, TOLS[int(st[2])], (spell + 1) % 4)
-            res = x.equals(y, **kw)
+            pos, kw = _tol_call_args(C, st[1], st[2], spell, st[6])
+            res = x.equals(y, *pos, **kw)
             obs("eq=" + ("T" if res else "F"))
+        elif k == "req":
+            x, y = _operands(e, st[1], st[5])
+            pos, kw = _tol_call_args(C, st[3], st[4], st[6], st[7])
+            if st[2] != "N" or st[7] == "k":
+                kw["verbose"] = verbose_value(st[2])
+            before = _observe(C, "")
+            try:
+                with contextlib.redirect_stdout(io.StringIO()):
+                    res = x.equals(y, *pos, **kw)
+            except Exception as ex:
+                obs("real=raised:" + fw.exc_enum(ex))
+                raise
+            events.append("eq=" + ("T" if res else "F") + before)     # the verdict, with the state found before the call
+            obs("real=ok")
         else:
             raise fw.HarnessError("unknown statement " + repr(st))
 
@@ -910,17 +1529,160 @@ def impl(c):
     return out
 
 
+def impl_cm(c):
+    """Objects returned by the setters / configuration() used as context managers; every block lives
+    in a generator suspended at the `yield` inside its `with` statement, so blocks can be left in any order."""
+    e = env()
+    C = e.C
+    events = []
+    objs, blocks = [], []
+
+    def block(o):
+        with o:
+            yield
+
+    def setter(key):
+        return {"a": C.atol, "r": C.rtol, "l": C.log_level}[key]
+
+    _reset(e)
+    try:
+        for ev in c.payload["cm"]:
+            k = ev[0]
+            if k in ("mk", "set"):
+                f = setter(ev[1])
+                try:
+                    old = f() if ev[2] == "_" else f(lvl_value(ev[2]) if ev[1] == "l" else tol_value(ev[2]))
+                except ValueError:
+                    events.append(_observe(C, k + "!ValueError"))
+                    continue
+                if k == "mk":
+                    objs.append(old)
+                events.append(_observe(C, k + "=" + _show(old.value)))
+            elif k == "mkcfg":
+                kw = {}
+                if ev[1] != "_":
+                    kw["atol"] = tol_value(ev[1])
+                if ev[2] != "_":
+                    kw["rtol"] = tol_value(ev[2])
+                if ev[3] != "_":
+                    kw["log_level"] = lvl_value(ev[3])
+                try:
+                    old = C.configuration(**kw)
+                except ValueError:
+                    events.append(_observe(C, "mkcfg!ValueError"))
+                    continue
+                objs.append(old)
+                events.append(_observe(C, f"mkcfg={_show(old['atol'])}/{_show(old['rtol'])}/{old['log_level']}"))
+            elif k == "enter":
+                if ev[1] < len(objs):
+                    o = objs[ev[1]]
+                    how = ev[2] if len(ev) > 2 else "o"
+                    if how != "o" and isinstance(o, C.Constant):
+                        # a copy of a Constant carries the same value and setter
+                        # (copies of a Configuration are not generated: Configuration.copy() recurses for ever)
+                        o = o.copy() if how == "c" else copy.deepcopy(o)
+                    g = block(o)
+                    next(g)
+                    blocks.append(g)
+                events.append(_observe(C, "enter"))
+            elif k == "bare":
+                try:
+                    with C.Constant(TOLS[3]):
+                        events.append(_observe(C, "bare-entered"))
+                except AttributeError:
+                    events.append(_observe(C, "bare!AttributeError"))
+            elif k == "exit":
+                if ev[1] < len(blocks) and blocks[ev[1]] is not None:
+                    g = blocks[ev[1]]
+                    blocks[ev[1]] = None
+                    if ev[2] == "n":
+                        try:
+                            next(g)
+                        except StopIteration:
+                            pass
+                    elif ev[2] == "t":
+                        try:
+                            g.throw(KeyError("thrown into the block"))
+                        except KeyError:
+                            pass
+                    else:
+                        g.close()
+                elif ev[1] < len(blocks):
+                    raise fw.HarnessError("a block is left twice")
+                events.append(_observe(C, "exit"))
+            else:
+                raise fw.HarnessError("unknown event " + repr(ev))
+    finally:
+        for g in blocks:
+            if g is not None:
+                try:
+                    g.close()
+                except Exception:
+                    pass
+        out = ";".join(events)
+        _reset(e)
+    return out
+
+
+def impl_fn(c):
+    """The private helpers of cfdm/functions.py, called directly from a prepared logging state."""
+    e = env()
+    C = e.C
+    f = c.payload["fn"]
+    F = C.functions
+    _reset(e)
+    try:
+        helper = {"dl": getattr(F, "_disable_logging", None), "valid": getattr(F, "_is_valid_log_level_int", None),
+                  "reset": getattr(F, "_reset_log_emergence_level", None),
+                  "parse": getattr(C.log_level, "_parse", None)}[f["f"]]
+        if helper is None:
+            return "absent"
+        C.log_level(f["lvl"])
+        _logging.getLogger().setLevel(f["root"])
+        _logging.disable(f["dis"])
+        arg = f["arg"]
+        ret = ""
+        try:
+            if f["f"] == "dl":
+                helper() if arg == "_" else helper(at_level="" if arg == "e" else arg)
+                ret = "ok"
+            elif f["f"] == "valid":
+                ret = "T" if helper(int(arg)) else "F"
+            elif f["f"] == "reset":
+                form, _, val = arg.partition(":")
+                helper(C.Constant(val) if form == "c" else int(val) if form == "i" else val)
+                ret = "ok"
+            else:
+                ret = "ret=" + str(helper(C.log_level, lvl_value(arg))) + ";ok"
+        except Exception as ex:
+            ret = "raised:" + fw.exc_enum(ex)
+        return f"{ret}|l={C.log_level().value},root={_logging.getLogger().level},dis={_logging.root.manager.disable}"
+    finally:
+        _reset(e)
+
+
+def _model_part(c, i):
+    if c.model_out is None:
+        return None
+    parts = c.model_out.split("#")
+    return parts[i] if len(parts) > i else None
+
+
 def model_new(c):
-    return None if c.model_out is None else c.model_out.split("#")[0]
+    return _model_part(c, 0)
+
+
+def model_mid(c):
+    return _model_part(c, 1)
 
 
 def model_old(c):
-    if c.model_out is None or "#" not in c.model_out:
-        return None
-    return c.model_out.split("#", 1)[1]
+    return _model_part(c, 2)
 
 
 def agree(c):
+    if c.stream == "C20.fn" and c.impl_out == "absent":
+        return True          # the helper no longer exists: nothing to compare (the public behaviour is C20.prog's business)
     return c.impl_out == model_new(c)
 
 
@@ -993,7 +1755,7 @@ class Walker:
         k = st[0]
         self.where = {"set": "setter", "cfg": "configuration", "with": "with-block", "wcfg": "configuration-with-block",
                       "call": "decorated-call", "real": "decorated-call", "try": "try", "raise": "raise",
-                      "eq": "equals-tolerances"}.get(k, "trace")
+                      "eq": "equals-tolerances", "req": "equals-tolerances"}.get(k, "trace")
         if k == "set":
             return self.do_set(st[1], st[2], cur, "set")
         if k == "cfg":
@@ -1032,6 +1794,8 @@ class Walker:
             return out, o
         if k in ("call", "real"):
             return self.do_call(st, cur)
+        if k == "req":
+            return self.do_req(st, cur)
         if k == "try":
             out, c2 = self.seq(st[1], cur)
             self.where = "try"
@@ -1055,6 +1819,40 @@ class Walker:
             self.same(o, cur, "an equality test must not change any setting")
             return "ok", o
         raise fw.HarnessError("unknown statement " + repr(st))
+
+    def do_req(self, st, cur):
+        """`equals` of a reflected class: verdict by the passed tolerances where given (whatever their
+        value), by the global ones otherwise; afterwards everything as before the call."""
+        var = env().eq_variants[st[1]]
+        what = f"{var['cls']}.equals (difference in {var['where']})"
+        tok = st[2]
+        res = resolve_verbose(tok)
+        info = dict(node="real", verbose=tok, depth=self.depth, invalid_seen=self.invalid_seen,
+                    level=cur["l"], nested=st[8] != "N")
+        if res[0] == "invalid":
+            self.invalid_seen = True
+            self.where = "decorated-call"
+            tag, o = self.next()
+            if tag != "real=raised:ValueError":
+                self.fail(f"invalid verbose {tok} gave {tag}, ValueError expected")
+            self.same(o, cur, "a call with an invalid verbose must change nothing", clause="decorated-call-invalid-verbose", **info)
+            return "raised:ValueError", o
+        tag, o = self.next()
+        rt = TOLS[int(st[3])] if st[3] != "_" else TOLS[int(cur["r"])]
+        at = TOLS[int(st[4])] if st[4] != "_" else TOLS[int(cur["a"])]
+        want = abs((2.0 + 7 * 2.0 ** -st[5]) - 2.0) <= at + rt * 2.0
+        if tag != "eq=" + ("T" if want else "F"):
+            self.fail(f"{what}(rtol={'global ' if st[3] == '_' else ''}{rt}, atol={'global ' if st[4] == '_' else ''}{at}, "
+                      f"{'positional' if st[7] == 'p' else 'keyword'}) on operands differing by {7 * 2.0 ** -st[5]}: verdict {tag}, "
+                      f"expected {want} (|a-b| <= atol + rtol*|b| with the passed values where given; globals in force: "
+                      f"rtol={TOLS[int(cur['r'])]}, atol={TOLS[int(cur['a'])]})")
+        self.same(o, cur, "state observed before the call")
+        self.where = "decorated-call"
+        tag, o2 = self.next()
+        if tag != "real=ok":
+            self.fail(f"{what}: {tag}, expected to return")
+        self.same(o2, cur, f"after {what}(verbose={tok}) everything must be as before the call", clause="decorated-call-exit", **info)
+        return "ok", o2
 
     def do_set(self, key, tok, cur, what):
         tag, o = self.next()
@@ -1158,14 +1956,88 @@ class Walker:
 def _has_nested_verbose(st):
     if st[0] == "real":
         return len(st) > 5 and st[5] != "N"
+    if st[0] == "req":
+        return len(st) > 8 and st[8] != "N"
     if st[0] != "call":
         return False
     for s in walk(st[3]):
-        if s[0] in ("call", "real") and resolve_verbose(s[2])[0] == "level":
+        if s[0] in ("call", "real", "req") and resolve_verbose(s[2])[0] == "level":
             return True
         if s[0] == "real" and len(s) > 5 and s[5] != "N":
             return True
+        if s[0] == "req" and len(s) > 8 and s[8] != "N":
+            return True
     return False
+
+
+def oracle_cm(c):
+    """Every clause on its own, from the property text: a setter returns the previous value and applies
+    the new one; entering changes nothing; leaving a block — however, whenever, in whatever order —
+    puts back what was in force just before the object was created."""
+    evs = c.payload["cm"]
+    obs = [_parse_event(x) for x in (c.impl_out or "").split(";") if x]
+    if len(obs) != len(evs):
+        return f"{len(obs)} observations for {len(evs)} events"
+    cur = dict(a="0", r="0", l="WARNING", root="30", dis="0")
+    objs, blocks = [], []
+    K = ("a", "r", "l", "root", "dis")
+    for n, (ev, (tag, o)) in enumerate(zip(evs, obs)):
+        if "cfg!" in o:
+            return f"event {n}: configuration() disagrees with the getters"
+        want = dict(cur)
+        k = ev[0]
+        if k in ("mk", "set"):
+            key, tok = ev[1], ev[2]
+            new = cur[key] if tok == "_" else (lvl_valid(tok) if key == "l" else (None if tok == "bad" else tok[1:]))
+            if new is None:
+                wtag = k + "!ValueError"
+            else:
+                wtag = k + "=" + cur[key]
+                want[key] = new
+                if key == "l" and tok != "_":
+                    want["root"], want["dis"] = _canon(new)
+                if k == "mk":
+                    objs.append(("const", key, cur[key]))
+        elif k == "mkcfg":
+            ok = ev[1] != "bad" and ev[2] != "bad" and (ev[3] == "_" or lvl_valid(ev[3]) is not None)
+            if not ok:
+                wtag = "mkcfg!ValueError"
+            else:
+                wtag = f"mkcfg={cur['a']}/{cur['r']}/{cur['l']}"
+                if ev[1] != "_":
+                    want["a"] = ev[1][1:]
+                if ev[2] != "_":
+                    want["r"] = ev[2][1:]
+                if ev[3] != "_":
+                    want["l"] = lvl_valid(ev[3])
+                    want["root"], want["dis"] = _canon(want["l"])
+                objs.append(("config", cur["a"], cur["r"], cur["l"]))
+        elif k == "enter":
+            wtag = "enter"
+            if ev[1] < len(objs):
+                blocks.append(ev[1])
+        elif k == "bare":
+            wtag = "bare!AttributeError"
+        else:
+            wtag = "exit"
+            if ev[1] < len(blocks):
+                ob = objs[blocks[ev[1]]]
+                if ob[0] == "const":
+                    want[ob[1]] = ob[2]
+                    if ob[1] == "l":
+                        want["root"], want["dis"] = _canon(ob[2])
+                else:
+                    want["a"], want["r"], want["l"] = ob[1], ob[2], ob[3]
+                    want["root"], want["dis"] = _canon(ob[3])
+        if tag != wtag:
+            return f"event {n} ({':'.join(str(x) for x in ev)}): {tag}, expected {wtag}"
+        for key in K:
+            if o[key] != want[key]:
+                what = ("leaving the block must put back what was in force before its object was created"
+                        if k == "exit" else "state after the event")
+                return f"event {n} ({':'.join(str(x) for x in ev)}): {key}={o[key]} but {want[key]} expected ({what})"
+        cur = {key: o[key] for key in K}
+    return None
 
 
 def _walk_case(c):
@@ -1189,8 +2061,12 @@ def _walk_case(c):
 def oracle(c):
     if c.impl_out is None:
         return "no implementation output"
+    if c.stream == "C20.fn":
+        return None          # private intermediates: the model comparison (drift) is all there is
     if c.impl_out.startswith("raised:"):
         return "the harness's interpreter raised: " + c.impl_out
+    if c.stream == "C20.cm":
+        return oracle_cm(c)
     msg, _ = _walk_case(c)
     return msg
 
@@ -1207,6 +2083,10 @@ def classify(c):
     the exit of a decorated call in the situation that defect describes."""
     if c.line is None or c.impl_out is None:
         return None
+    if c.stream == "C20.cm":
+        return "unexplained:context-manager-object" if oracle_cm(c) else None
+    if c.stream != "C20.prog":
+        return None
     msg, info = _walk_case(c)
     if not msg:
         return None
@@ -1215,20 +2095,25 @@ def classify(c):
     other = "unexplained:" + ((info or {}).get("clause") or "trace")
     if not info or info.get("clause") != "decorated-call-exit":
         return other
-    old = model_old(c)
-    if old is None:
+    old, mid = model_old(c), model_mid(c)
+    if old is None or mid is None:
         try:
-            old = fw.model_run(["C20.old " + c.line.split(" ", 1)[1]])[0]
+            parts = fw.model_run(["C20.prog " + c.line.split(" ", 1)[1]])[0].split("#")
+            mid, old = parts[1], parts[2]
         except Exception:
             return other
+    r = resolve_verbose(info["verbose"])
+    zero = info["depth"] == 0 and info["level"] == "DISABLE" and r == ("level", "DISABLE")
+    if mid == c.impl_out:
+        # the decorator after fixes/C20-verbose-scope.patch: only the outermost verbose=0 under DISABLE is left
+        return SIG_ZERO if zero else other
     if old != c.impl_out:
         return other
     if info["invalid_seen"]:
         return SIG_LEAK
     if info["depth"] >= 1 or info["nested"]:
         return SIG_NESTED
-    r = resolve_verbose(info["verbose"])
-    if info["level"] == "DISABLE" and r == ("level", "DISABLE"):
+    if zero:
         return SIG_ZERO
     return other
 
@@ -1249,6 +2134,8 @@ def _variants(prog):
 
 
 def shrink(c, run):
+    if not _is_prog(c):
+        return c
     sig = classify(c)
 
     def evaluate(prog):
@@ -1288,6 +2175,9 @@ def shrink(c, run):
 def extra_coverage(run):
     e = env()
     return dict(
+        equals_variants_found=[dict(cls=v["cls"], difference_in=v["where"]) for v in e.eq_variants],
+        classes_with_equals=sorted({v["cls"] for v in e.eq_variants}),
+        decorator_defects_measured_for_steering=e.flags,
         decorated_functions_found=len(e.funcs),
         decorated_functions=[dict(name=qn, ways_to_call=len(e.recipes.get(qn) or [])) for qn in e.names],
         enum_table=fw.model_run(["C20.tab"])[0] if fw.EXE.exists() else None,
